@@ -291,6 +291,19 @@ func sameRequest(a, b commands.Request) bool {
 	return reflect.DeepEqual(a, b)
 }
 
+// domainOfLength builds a valid domain name of exactly l characters (labels of at most 63).
+func domainOfLength(l int) string {
+	var b []byte
+	for len(b) < l {
+		if len(b) > 0 && (len(b)+1)%60 == 0 && len(b) < l-1 {
+			b = append(b, '.')
+			continue
+		}
+		b = append(b, byte('a'+len(b)%26))
+	}
+	return string(b)
+}
+
 func mtu(domain string, e enc.Encoder) int {
 	dc, _ := sdns.NewClientDnsConnection(domain, nil)
 	dc.Serializer.Upstream.Encoder = e
@@ -355,6 +368,20 @@ func TestCheck(t *testing.T) {
 			}
 			for _, v := range []uint32{0, 1, sdns.ProtocolVersion, 0xFFFFFFFF} {
 				do(Case{Cmd: "version", Codec: e.Name(), Domain: d, QType: cname, Version: v})
+			}
+		}
+		// every domain length: the fragment size the client computes for it (and the sizes just
+		// below) must still make a name that fits - the size arithmetic depends on the length
+		for l := 3; l <= 200; l++ {
+			d := domainOfLength(l)
+			m := mtu(d, e)
+			for n := m - 2; n <= m; n++ {
+				if n < 1 {
+					continue
+				}
+				for _, fill := range []string{"ff", "ramp"} {
+					do(Case{Cmd: "packet", Codec: e.Name(), Domain: d, QType: cname, User: 1295, Seq: 65535, Ack: 0xFFFF, Payload: n, Fill: fill})
+				}
 			}
 		}
 	}
